@@ -1,7 +1,7 @@
 """Shared rule builders for the LieTensor properties C01-C05."""
 import ast, re, copy
 from ..core import RuleResult, Finding, AnalysisError, dotted, src, norm_construct
-from ..expr import inline_straight, returns_of, dump
+from ..expr import inline_straight, returns_of, dump, rv
 from .. import masks, layout, paths
 
 OP = 'pypose.lietensor.operation'
@@ -146,16 +146,18 @@ def rule_dispatch(repo, rid, method, families, op_of, ltype_of, floor, wrapper=N
     if wrapper is not None:
         w = repo.func(UT, wrapper)
         rets = returns_of(w.node)
-        ok = len(rets) == 1 and isinstance(rets[0].value, ast.Call) and isinstance(rets[0].value.func, ast.Attribute) \
-            and rets[0].value.func.attr == method and isinstance(rets[0].value.func.value, ast.Name) \
-            and rets[0].value.func.value.id == w.pos_params[0]
+        v0 = rv(w.node, rets[0]) if len(rets) == 1 else None
+        ok = isinstance(v0, ast.Call) and isinstance(v0.func, ast.Attribute) \
+            and v0.func.attr == method and isinstance(v0.func.value, ast.Name) \
+            and v0.func.value.id == w.pos_params[0]
         res.inst({'function': w.fq, 'forwards_to': '.%s()' % method, 'ok': ok}, w.fq)
         if not ok:
             res.add(Finding(rid, w, 'pp.%s must forward to the .%s() method of its first argument' % (wrapper, method), construct='wrapper'))
         lt = repo.func(LT, 'LieTensor.' + method)
         rets = returns_of(lt.node)
-        ok = len(rets) == 1 and isinstance(rets[0].value, ast.Call) and dotted(rets[0].value.func) == 'self.ltype.' + method \
-            and rets[0].value.args and dotted(rets[0].value.args[0]) == 'self'
+        v0 = rv(lt.node, rets[0]) if len(rets) == 1 else None
+        ok = isinstance(v0, ast.Call) and dotted(v0.func) == 'self.ltype.' + method \
+            and v0.args and dotted(v0.args[0]) == 'self'
         res.inst({'function': lt.fq, 'forwards_to': 'self.ltype.%s(self, ..)' % method, 'ok': ok}, lt.fq)
         if not ok:
             res.add(Finding(rid, lt, 'LieTensor.%s must dispatch to self.ltype.%s(self, ...)' % (method, method), construct='dispatch'))
